@@ -18,7 +18,6 @@ import (
 	"runtime"
 	"sort"
 	"strings"
-	"sync"
 	"sync/atomic"
 	"syscall"
 	"testing"
@@ -91,12 +90,7 @@ func genAnswer(t *rapid.T, pat string) string {
 	case k < 36:
 		return rapid.SampledFrom(addrs6).Draw(t, "v6")
 	case k < 72:
-		n := rapid.SampledFrom(exactNames).Draw(t, "cname")
-		if rapid.IntRange(0, 24).Draw(t, "cname_upper") == 0 {
-			// Host names are case-insensitive; the table keeps answers as typed.
-			n = strings.ToUpper(n[:1]) + n[1:]
-		}
-		return n
+		return rapid.SampledFrom(exactNames).Draw(t, "cname")
 	case k < 79:
 		return rapid.SampledFrom(extraNames).Draw(t, "cname_extra")
 	case k < 86:
@@ -650,16 +644,6 @@ func (r *runner) checkSpecified(q *qctx) error {
 		return r.checkUpstreamLeg(q, lower(op.Name), "exception-not-passed-through", rest)
 	case oCnameUp:
 		// S5.
-		if ex.excHop && lower(op.Name) != ex.final {
-			passedOrig := len(rep.Exchanges) > 0 && lower(rep.Exchanges[0].Name) == lower(op.Name)
-			if len(rep.Exchanges) == 0 && m != nil {
-				passedOrig = sameRecords(m.Answer, upstreamAnswer(lower(op.Name), op.Qt).Answer) ||
-					(r.cache && r.cached[lower(op.Name)+"|"+dns.Type(op.Qt).String()]["servfail"] && m.Rcode == dns.RcodeServerFailure && len(m.Answer) == 0)
-			}
-			if passedOrig {
-				return q.bad("chain-exception-drops-cname", "the CNAME chain %v ends at %s, whose entry is a pass-through exception, so %s has to be resolved upstream and returned under the CNAME; instead the whole request was passed upstream under the original name and the CNAME entries were ignored", ex.chain, ex.final, ex.final)
-			}
-		}
 		var rest []dns.RR
 		if m != nil && !(q.exchangeFailed() && len(m.Answer) == 0) {
 			var err error
@@ -787,15 +771,12 @@ func (r *runner) query(op Op) error {
 	if len(ex.chain) > 0 && ex.kind == oEmpty {
 		r.c.Probe("empty_via_chain")
 	}
-	if ex.excHop {
-		r.c.Probe("exception_at_later_hop")
-	}
 	if len(rep.Exchanges) > 0 && op.Fault != "" && (ex.kind == oCnameUp || len(ex.chain) > 0) {
 		r.c.Probe("fault_on_cname_leg")
 	}
 	qc := &qctx{op: op, rep: rep, ex: ex, fault: env.UpstreamFault(op.Fault), desc: desc}
 	if err := r.checkGeneral(qc); err != nil {
-		if v, ok := err.(*kernel.Violation); ok && r.tolerate(v) {
+		if v, ok := err.(*kernel.Violation); ok && r.c.Tolerate(v) {
 			return nil
 		}
 		return err
@@ -812,10 +793,6 @@ func (r *runner) query(op Op) error {
 		return nil
 	}
 	err := r.checkSpecified(qc)
-	if v, ok := err.(*kernel.Violation); ok && ex.caseFold {
-		v.Msg = "a CNAME answer on the path is spelled with upper-case letters and is compared case-sensitively [" + v.Class + "] " + v.Msg
-		v.Class = "cname-answer-case-sensitive"
-	}
 	if v, ok := err.(*kernel.Violation); ok {
 		// Whatever was exchanged may sit in the cache now.
 		for _, e := range rep.Exchanges {
@@ -825,58 +802,11 @@ func (r *runner) query(op Op) error {
 				r.markSeen(lower(e.Name), e.Qtype, "servfail")
 			}
 		}
-		if r.tolerate(v) {
+		if r.c.Tolerate(v) {
 			return nil
 		}
 	}
 	return err
-}
-
-// tolerate reports whether v is a listed known finding that the case may carry
-// on past.  The driver hands the known classes to exploring workers only; so
-// that a scenario which passes a known finding on its way to another violation
-// replays to the same class, a replay reads the property's known_findings file
-// itself and tolerates every listed class except the replay file's own.
-func (r *runner) tolerate(v *kernel.Violation) bool {
-	if r.c.Tolerate(v) {
-		return true
-	}
-	replayKnownOnce.Do(loadReplayKnown)
-	return replayKnown[v.Class]
-}
-
-var (
-	replayKnownOnce sync.Once
-	replayKnown     = map[string]bool{}
-)
-
-func loadReplayKnown() {
-	path := os.Getenv("VERIF_REPLAY")
-	if path == "" || os.Getenv("VERIF_KNOWN") != "" {
-		return
-	}
-	var rf struct {
-		Class string `json:"class"`
-	}
-	if b, err := os.ReadFile(path); err == nil {
-		_ = json.Unmarshal(b, &rf)
-	}
-	for _, p := range []string{"props/c06/known_findings.jsonl", "/verif/sim/props/c06/known_findings.jsonl"} {
-		b, err := os.ReadFile(p)
-		if err != nil {
-			continue
-		}
-		for _, line := range strings.Split(string(b), "\n") {
-			var k struct {
-				Property string `json:"property"`
-				Class    string `json:"class"`
-			}
-			if json.Unmarshal([]byte(strings.TrimSpace(line)), &k) == nil && k.Property == "C06" && k.Class != rf.Class {
-				replayKnown[k.Class] = true
-			}
-		}
-		return
-	}
 }
 
 func (r *runner) markSeen(name string, qt uint16, what string) {
@@ -1099,7 +1029,7 @@ var Prop = &kernel.Property{
 	Stub: []string{"upstream resolver (logs every question; answers derive from the name asked; seeded faults)", "client sockets (fake conns / response writers)", "query log and statistics (recorders)", "wall clock (synctest); the termination watchdog reads the kernel's monotonic clock and process CPU time"},
 	Assumptions: []string{
 		"the reference resolution (ref.go) is the reading of AGHTechDoc.md §Rewrites + the statement: CNAME over address entries, exact over wildcard, longest wildcard first, pass-through exceptions, matched-without-value => empty NOERROR",
-		"shapes the documentation leaves open are only held to S1 (termination) and S2 (no address outside the table for the resolved name and family): several CNAME targets at one pattern, one wildcard pattern with CNAME and address values, an exception and a value of the same family at one pattern, an entry of the other family shadowing a less specific entry of the asked family, CNAME cycles",
+		"shapes the documentation leaves open are only held to S1 (termination) and S2 (no address outside the table for the resolved name and family): several CNAME targets at one pattern, one wildcard pattern with CNAME and address values, an exception and a value of the same family at one pattern, an entry of the other family shadowing a less specific entry of the asked family, a pass-through exception met at a later hop of a CNAME chain, CNAME cycles",
 		"a wildcard '*.s' covers every name ending in '.s' (any depth), not 's' itself",
 		"a synthesised answer need not list every value of the deciding pattern (any non-empty subset is accepted)",
 		"with the DNS cache on, a name resolved upstream earlier may be served without a new exchange",
@@ -1108,7 +1038,7 @@ var Prop = &kernel.Property{
 	FaultKinds: []string{"upstream_error", "upstream_timeout", "upstream_servfail", "upstream_slow", "live_table_change"},
 	ProbeNames: []string{oNotMatched, oPassExc, oLocal, oEmpty, oCnameUp, oUnspecified, "matched_query",
 		"cname_beats_address", "exact_shadows_wildcard", "specific_wildcard_wins", "wildcard_cname", "wildcard_address", "self_reference", "family_exception",
-		"wildcard_with_other_family_exception", "cname_answer_mixed_case", "cycle", "cycle_through_qname", "cycle_not_through_qname", "chain_2plus", "chain_4plus", "chain_through_wildcard", "local_via_chain", "empty_via_chain", "exception_at_later_hop",
+		"wildcard_with_other_family_exception", "cycle", "cycle_through_qname", "cycle_not_through_qname", "chain_2plus", "chain_4plus", "chain_through_wildcard", "local_via_chain", "empty_via_chain", "unspecified_exception_at_later_hop",
 		"unspecified_multi_target", "unspecified_wildcard_mixed_kinds", "unspecified_exc_and_value", "unspecified_cross_family",
 		"fault_on_cname_leg", "upstream_failed_leg", "served_from_cache", "duplicate_entries",
 		"table_add", "table_delete", "table_update", "delete_missing", "update_missing", "delete_removed_duplicates"},
